@@ -340,7 +340,7 @@ func replayC01(env *mc.Env, raw json.RawMessage) (bool, string) {
 func init() {
 	mc.Register(&mc.Check{
 		ID: "C01",
-		Rule: "every program of the feature-interaction fragment (fixed contract prelude + 7-variable header + body of <= 2 statements from 115 templates, plus bodies of exactly 3 statements from a 18-template core alphabet; thorough: <= 3 statements from all templates) that the checker accepts, " +
+		Rule: "every program of the feature-interaction fragment (fixed contract prelude + 7-variable header + body of <= 2 statements from 130 templates, plus bodies of exactly 3 statements from a 18-template core alphabet; thorough: <= 3 statements from all templates) that the checker accepts, " +
 			"x {script, transaction} x {interpreter, VM} x pre-states {empty account, and R / [R] / S stored at each storage path the program mentions} x arguments {1, 0, -1, 1000} (for programs that reach a pre/post-condition); " +
 			"oracle: result is success or a user/external error; never an internal error, Go runtime panic, escaped panic, nor ValueTransferTypeError / InvalidatedResourceError / MemberAccessTypeError; non-trivial = distinct accepted program",
 		Assumptions: []string{
